@@ -990,6 +990,7 @@ static void DecodeDECDA_INCDA(Word Code) {
 
 static void DecodeADDA_SUBA_CMPA(Word Code) {
     OpSize = eOpSizeA;
+    PCDist = 2;
 
     if (!ChkArgCnt(2, 2))
         ;
